@@ -777,3 +777,53 @@ pub fn ground_terms(sig: &Sig, sort: usize, depth: usize, limit: usize) -> Vec<T
     }
     by_sort[sort].clone()
 }
+
+impl Model {
+    /// A model whose tables are the rows of an engine dump (ids = the engine's canonical
+    /// ids, identity partition). Used as the match oracle over "the database as it stood".
+    /// Returns None when the dump holds values the model does not represent.
+    pub fn from_dump(d: &Dump) -> Option<Model> {
+        let mut max_id = 0usize;
+        fn scan(v: &V, max_id: &mut usize) {
+            if let V::Id(_, raw, c) = v {
+                *max_id = (*max_id).max(*raw as usize).max(*c as usize);
+            }
+        }
+        for t in &d.tables {
+            for r in &t.rows {
+                for v in &r.vals {
+                    scan(v, &mut max_id);
+                }
+            }
+        }
+        let mut m = Model { parent: (0..=max_id).collect(), id_sort: vec![String::new(); max_id + 1], tables: BTreeMap::new(), rules: vec![], unions_asserted: 0, matches_applied: 0, dirty: false };
+        for t in &d.tables {
+            let mut rows = vec![];
+            for r in &t.rows {
+                let mut vals = vec![];
+                for v in &r.vals {
+                    vals.push(match v {
+                        V::Id(s, _, c) => {
+                            m.id_sort[*c as usize] = s.clone();
+                            MV::Id(*c as usize)
+                        }
+                        V::Base(b) => MV::Int(b.parse::<i64>().ok()?),
+                        V::Cont(..) => return None,
+                    });
+                }
+                let out = vals.pop()?;
+                rows.push(MRow { args: vals, out, subsumed: r.subsumed });
+            }
+            let kind = if t.is_let {
+                Kind::Let
+            } else if t.is_constructor {
+                Kind::Ctor
+            } else {
+                Kind::Func(Merge::Min)
+            };
+            let index = rows.iter().enumerate().map(|(i, r)| (r.args.clone(), i)).collect();
+            m.tables.insert(t.name.clone(), MTable { kind, in_sorts: t.in_sorts.clone(), out_sort: t.out_sort.clone(), rows, index });
+        }
+        Some(m)
+    }
+}
